@@ -20,6 +20,8 @@ type Member struct {
 	Seed  uint64 `json:"seed,omitempty"`
 	Perm  uint32 `json:"perm"`
 	Mtime int64  `json:"mtime"`
+	// FailOpen: the member's source cannot be opened (as a file the CLI may not read)
+	FailOpen bool `json:"fail_open,omitempty"`
 }
 
 type Step struct {
